@@ -128,7 +128,7 @@ func (i *RBTIterator) init() {
 // Valid returns true if the current iterator is valid.
 func (i *RBTIterator) Valid() bool {
 	if !i.reverse {
-		return !i.curr.isNull() && (i.end == nil || bytes.Compare(i.Key(), i.end) < 0)
+		return !i.curr.isNull() && (len(i.end) == 0 || bytes.Compare(i.Key(), i.end) < 0)
 	}
 	return !i.curr.isNull() && (i.start == nil || bytes.Compare(i.Key(), i.start) >= 0)
 }
